@@ -63,23 +63,7 @@ def clades_of(tree, back):
     return frozenset(out)
 
 
-def malformed(trees):
-    """Why the returned objects are not self-contained trees (a node whose
-    parent link disagrees with the child lists, or a node shared by two
-    results), None when they are."""
-    seen = {}
-    for k, tree in enumerate(trees):
-        if tree is None:
-            continue
-        if tree.up is not None:
-            return f"result {k} is attached below another node"
-        for node in tree.traverse():
-            if id(node) in seen and seen[id(node)] != k:
-                return f"results {seen[id(node)]} and {k} share a node object"
-            seen[id(node)] = k
-            if any(child.up is not node for child in node.children):
-                return f"result {k}: a child's parent link does not point to its parent"
-    return None
+from lib.proj import malformed  # noqa: E402
 
 
 def ptrees(trees, back):
